@@ -166,6 +166,33 @@ Proof. intros Hd Hr Hw. unfold mem_read, mem_write. destruct (String.eqb (eff_mo
   { destruct rw; split; lra. }
   destruct (String.eqb (eff_mode at_io rw mode) "sram"); split; lra. Qed.
 
+(* ---- which entries a cost setting selects for a layer (run_qtools.py extract_energy_sum / extract_energy_profile) ---- *)
+Close Scope Q_scope.
+Fixpoint dget {A} (d : list (string * A)) (k : string) (default : A) : A :=
+  match d with [] => default | (k', v) :: r => if String.eqb k' k then v else dget r k default end.
+(* the rule of the layer's class; without one the "default" rule; without that nothing *)
+Definition keys_for (setting : list (string * list string)) (cls : string) : list string :=
+  dget setting cls (dget setting "default" []).
+Lemma dget_hit {A} (d : list (string * A)) k v dflt : In (k, v) d -> NoDup (map fst d) -> dget d k dflt = v.
+Proof. induction d as [|[k' v'] r IH]; intros Hin Hnd; [destruct Hin|]. cbn in *. inversion Hnd as [|? ? Hnot Hnd']; subst.
+  destruct Hin as [E|Hin].
+  - inversion E; subst. rewrite String.eqb_refl. reflexivity.
+  - destruct (String.eqb k' k) eqn:E; [|apply IH; assumption].
+    apply String.eqb_eq in E. subst. exfalso. apply Hnot. change k with (fst (k, v)). apply in_map. exact Hin. Qed.
+(* an EMPTY class rule selects nothing: it does not fall through to the default rule *)
+Theorem empty_class_rule_selects_nothing setting cls : In (cls, []) setting -> NoDup (map fst setting) -> keys_for setting cls = [].
+Proof. intros H N. unfold keys_for. apply dget_hit; assumption. Qed.
+Theorem class_rule_beats_default setting cls ks : In (cls, ks) setting -> NoDup (map fst setting) -> keys_for setting cls = ks.
+Proof. intros H N. unfold keys_for. apply dget_hit; assumption. Qed.
+Lemma dget_miss {A} (d : list (string * A)) k dflt : ~ In k (map fst d) -> dget d k dflt = dflt.
+Proof. induction d as [|[k' v'] r IH]; intros H; [reflexivity|]. cbn in *. destruct (String.eqb k' k) eqn:E.
+  - apply String.eqb_eq in E. subst. exfalso. apply H. left. reflexivity.
+  - apply IH. intros C. apply H. right. exact C. Qed.
+Theorem no_class_rule_uses_default setting cls : ~ In cls (map fst setting) ->
+  keys_for setting cls = dget setting "default" [].
+Proof. intros H. unfold keys_for. apply dget_miss. exact H. Qed.
+Open Scope Q_scope.
+
 (* one layer's contribution to the total is the sum of its four entries; the report's total is the sum over the layers *)
 Definition layer_total (inputs outputs parameters opc : Q) : Q := inputs + outputs + parameters + opc.
 Definition qsum4 (l : list (Q * Q * Q * Q)) : Q :=
